@@ -37,6 +37,7 @@ type Engine struct {
 	bodyWriteCache map[*ssa.Function]*writeSet
 	smallCache     map[*ssa.Function]bool
 	sentCache      map[*ssa.Global]*Term
+	initOnceCache  map[*ssa.Global]bool
 	importCache    map[*types.Package]map[string]string
 	loadErrs       []string
 	contractFiles  []string
@@ -251,6 +252,63 @@ func (e *Engine) sentinel(g *ssa.Global) *Term {
 	t := mkVar("err!"+shortPkg(g.Pkg.Pkg.Path())+"."+g.Name(), SRef)
 	e.sentCache[g] = t
 	return t
+}
+
+// initOnceNonNil: package-level variable of reference type initialised by `&T{..}`, `T{..}` or a call, never
+// stored to outside package initialisation.
+func (e *Engine) initOnceNonNil(g *ssa.Global) bool {
+	if v, ok := e.initOnceCache[g]; ok {
+		return v
+	}
+	if e.initOnceCache == nil {
+		e.initOnceCache = map[*ssa.Global]bool{}
+	}
+	e.initOnceCache[g] = false
+	p := e.allPkgs[g.Pkg.Pkg.Path()]
+	if p == nil {
+		return false
+	}
+	found := false
+	for _, f := range p.Syntax {
+		for _, d := range f.Decls {
+			gd, ok := d.(*ast.GenDecl)
+			if !ok || gd.Tok != token.VAR {
+				continue
+			}
+			for _, s := range gd.Specs {
+				vs := s.(*ast.ValueSpec)
+				for i, n := range vs.Names {
+					if n.Name != g.Name() || i >= len(vs.Values) {
+						continue
+					}
+					switch x := vs.Values[i].(type) {
+					case *ast.CallExpr:
+						found = true
+					case *ast.UnaryExpr:
+						if x.Op == token.AND {
+							found = true
+						}
+					case *ast.CompositeLit:
+						found = true
+					}
+				}
+			}
+		}
+	}
+	if !found {
+		return false
+	}
+	for _, m := range g.Pkg.Members {
+		fn, ok := m.(*ssa.Function)
+		if !ok || fn.Name() == "init" {
+			continue
+		}
+		if storesTo(fn, g) {
+			return false
+		}
+	}
+	e.initOnceCache[g] = true
+	return true
 }
 
 func storesTo(fn *ssa.Function, g *ssa.Global) bool {
